@@ -147,6 +147,75 @@ def packaged_files():
     return sorted(os.path.basename(p) for p in glob.glob(os.path.join(pkg, '*.yaml')))
 
 
+
+def l_reset(d):
+    """the reset function of a configuration as a Lean `ResetSpec` term (numpy's split vectors included)"""
+    from gym_gridverse.envs import reset_functions as rsf
+    from gym_gridverse.grid_object import Color
+    from harness import envspec
+
+    LK = {'NoneGridObject': '.noneObj', 'Hidden': '.hidden', 'Floor': '.floor', 'Wall': '.wall', 'Exit': '.exit', 'Door': '.door', 'Key': '.key',
+          'MovingObstacle': '.obstacle', 'Box': '.box', 'Telepod': '.telepod', 'Beacon': '.beacon'}
+    LC = {'NONE': '.none', 'RED': '.red', 'GREEN': '.green', 'BLUE': '.blue', 'YELLOW': '.yellow'}
+    name = d['name']
+    p = envspec.defaults(rsf.reset_function_registry[name])
+    p.update({k: v for k, v in d.items() if k != 'name'})
+    h, w = p['shape']
+    b = lambda x: 'true' if x else 'false'  # noqa: E731
+    il = lambda l: '[' + ', '.join(str(int(x)) for x in l) + ']'  # noqa: E731
+    cols = lambda cs: '[' + ', '.join(LC[c.name] for c in sorted({Color[c] for c in cs}, key=lambda c: c.value)) + ']'  # noqa: E731
+    if name == 'empty':
+        return f".empty ⟨{h}, {w}⟩ {b(p['random_agent'])} {b(p['random_exit'])}"
+    if name == 'rooms':
+        lh, lw = p['layout']
+        return f".rooms ⟨{h}, {w}⟩ {lh} {lw} {il(envspec.splits(h, lh))} {il(envspec.splits(w, lw))}"
+    if name == 'dynamic_obstacles':
+        return f".dynamicObstacles ⟨{h}, {w}⟩ {p['num_obstacles']} {b(p['random_agent'])}"
+    if name == 'keydoor':
+        return f'.keydoor ⟨{h}, {w}⟩'
+    if name == 'crossing':
+        ot = p['object_type']
+        ot = ot if isinstance(ot, str) else ot.__name__
+        return f".crossing ⟨{h}, {w}⟩ {p['num_rivers']} {LK[ot]}"
+    if name == 'teleport':
+        return f'.teleport ⟨{h}, {w}⟩'
+    if name == 'memory':
+        return f".memory ⟨{h}, {w}⟩ {cols(p['colors'])}"
+    if name == 'memory_rooms':
+        lh, lw = p['layout']
+        return f".memoryRooms ⟨{h}, {w}⟩ {lh} {lw} {il(envspec.splits(h, lh))} {il(envspec.splits(w, lw))} {cols(p['colors'])} {p['num_beacons']} {p['num_exits']}"
+    raise KeyError(name)
+
+
+def generate_envs():
+    """semantic description of every shipped environment the model can express: state space, reset
+    function with its parameters, transition chain"""
+    LK = {'NoneGridObject': '.noneObj', 'Hidden': '.hidden', 'Floor': '.floor', 'Wall': '.wall', 'Exit': '.exit', 'Door': '.door', 'Key': '.key',
+          'MovingObstacle': '.obstacle', 'Box': '.box', 'Telepod': '.telepod', 'Beacon': '.beacon'}
+    LC = {'NONE': '.none', 'RED': '.red', 'GREEN': '.green', 'BLUE': '.blue', 'YELLOW': '.yellow'}
+    LT = {'move_agent': '.moveAgent', 'turn_agent': '.turnAgent', 'pickndrop': '.pickndrop', 'move_obstacles': '.moveObstacles',
+          'actuate_door': '.actuateDoor', 'actuate_box': '.actuateBox', 'teleport': '.teleport'}
+    out = ['/- GENERATED by harness/extract_cfg.py from /repo — do not edit. -/', 'import GridVerse.Model.Reset', 'import GridVerse.Model.Spaces', 'import GridVerse.Model.Transition', 'namespace GV.Gen', '',
+           '/-- a shipped environment: file name, declared state space, reset function with parameters, transition chain -/',
+           'structure ShippedEnv where', '  name : String', '  space : StateSpace', '  reset : ResetSpec', '  trans : List TransAtom', '',
+           'def shippedEnvs : List ShippedEnv := [']
+    rows = []
+    for n, d, _ in shipped():
+        try:
+            h, w = d['reset_function']['shape']
+            kinds = '[' + ', '.join(LK[k] for k in d['state_space']['objects']) + ']'
+            colors = '[' + ', '.join(LC[c] for c in d['state_space']['colors']) + ']'
+            trans = '[' + ', '.join(LT[t['name']] for t in d['transition_functions']) + ']'
+            rows.append(f'  ⟨{l_str(n)}, ⟨{h}, {w}, {kinds}, {colors}⟩, {l_reset(d["reset_function"])}, {trans}⟩')
+        except KeyError:
+            continue  # a custom component: outside the model
+    out.append(',\n'.join(rows))
+    out.append(']')
+    out.append('')
+    out.append('end GV.Gen')
+    return '\n'.join(out) + '\n'
+
+
 def generate():
     from gym_gridverse.gym import STRING_TO_YAML_FILE
 
@@ -172,4 +241,4 @@ def generate():
     out.append('def registeredIds : List (String × String) := [' + ', '.join(f'({l_str(k)}, {l_str(v)})' for k, v in STRING_TO_YAML_FILE.items()) + ']')
     out.append('')
     out.append('end GV.Gen')
-    return {'Configs.lean': '\n'.join(out) + '\n'}
+    return {'Configs.lean': '\n'.join(out) + '\n', 'Envs.lean': generate_envs()}
